@@ -289,10 +289,11 @@ def evaluated_first(header: ast.AST, load: ast.AST) -> bool:
                 walk(e.body, True)
             else:
                 walk(e.generators[0].iter, cond)
-                for ch in ast.walk(e):
-                    if ch is load:
-                        state["found"] = True
-                        state["ok"] = False
+                if not state["found"]:
+                    for ch in ast.walk(e):
+                        if ch is load:
+                            state["found"] = True
+                            state["ok"] = False
             return
         for ch in ast.iter_child_nodes(e):
             if isinstance(ch, ast.expr):
@@ -302,6 +303,9 @@ def evaluated_first(header: ast.AST, load: ast.AST) -> bool:
         if isinstance(e, IMPURE) and not state["found"]:
             if isinstance(e, ast.Call) and isinstance(e.func, ast.Name) and e.func.id == "globals" and not e.args and not e.keywords:
                 return
+            if isinstance(e, ast.Call) and isinstance(e.func, (ast.Name, ast.Attribute)) and (e.func.id if isinstance(e.func, ast.Name) else e.func.attr) in ("itemgetter", "attrgetter", "methodcaller", "partial") \
+                    and all(_simple(x) for x in e.args) and all(_simple(k.value) for k in e.keywords):
+                return      # building a getter / partial application of plain values runs no user code
             state["dirty"] = True
 
     walk(header, False)
@@ -1331,6 +1335,8 @@ def apply_callable(f: ast.AST, args: List[ast.AST]) -> Optional[ast.AST]:
             cnt, nested = uses_of(f.body, p)
             if len(args) == 1 and cnt == 1 and not nested:
                 continue
+            if cnt == 0 and not any(isinstance(x, (ast.Call, ast.NamedExpr, ast.Await, ast.Yield, ast.YieldFrom)) for x in ast.walk(a)):
+                continue        # the parameter is ignored and computing the argument runs no code
             return None
         return Subst(dict(zip(ps, [copy.deepcopy(a) for a in args]))).visit(copy.deepcopy(f.body))
     return ast.Call(func=copy.deepcopy(f), args=[copy.deepcopy(a) for a in args], keywords=[])
@@ -1371,7 +1377,7 @@ def defunctionalize_call(n: ast.Call, resolve) -> Optional[ast.AST]:
     from .normalize import Subst, is_const_expr
     f = n.func
     # a call of a conditional expression choosing the callee: the call is made in each branch (the test is evaluated first either way)
-    if isinstance(f, ast.IfExp) and all(_simple(x) for x in n.args) and all(_simple(k.value) for k in n.keywords):
+    if isinstance(f, ast.IfExp) and not any(isinstance(x, ast.Starred) for x in n.args):      # (only one branch runs: the arguments are still evaluated once, after the test)
         def push(e):
             if isinstance(e, ast.IfExp):
                 return ast.IfExp(test=e.test, body=push(e.body), orelse=push(e.orelse))
@@ -1510,6 +1516,12 @@ def defunctionalize_call(n: ast.Call, resolve) -> Optional[ast.AST]:
                 l, r = r, l
             if isinstance(l, ast.Name) and l.id == x and isinstance(r, ast.Name) and r.id != x and (r.id.endswith("__item") or len(r.id) <= 2):
                 return ast.Compare(left=r, ops=[ast.In()], comparators=[it])
+    if q == "builtins.next" and not n.keywords and 1 <= len(a) <= 2 and isinstance(a[0], ast.IfExp) and (len(a) == 1 or _simple(a[1])):
+        def push_next(e):
+            if isinstance(e, ast.IfExp):
+                return ast.IfExp(test=e.test, body=push_next(e.body), orelse=push_next(e.orelse))
+            return ast.Call(func=copy.deepcopy(f), args=[e] + [copy.deepcopy(x) for x in a[1:]], keywords=[])
+        return push_next(a[0])
     # F6
     if q == "builtins.next" and not n.keywords and 1 <= len(a) <= 2 and single_gen(a[0]):
         g = a[0].generators[0]
@@ -1574,7 +1586,7 @@ def subscript_rules(n: ast.Subscript, root, resolve) -> Optional[ast.AST]:
     from .normalize import is_const_expr
     v, k = n.value, n.slice
     is_globals = isinstance(v, ast.Call) and isinstance(v.func, ast.Name) and v.func.id == "globals" and not v.args and not v.keywords and resolve(v.func) == "builtins.globals"
-    plain_table = isinstance(v, (ast.Dict, ast.Tuple)) and all(isinstance(x, (ast.Name, ast.Constant)) or is_const_expr(x) for x in (v.values if isinstance(v, ast.Dict) else v.elts)) \
+    plain_table = isinstance(v, (ast.Dict, ast.Tuple)) and all(isinstance(x, (ast.Name, ast.Constant, ast.Lambda)) or is_const_expr(x) for x in (v.values if isinstance(v, ast.Dict) else v.elts)) \
         and (not isinstance(v, ast.Dict) or all(kk is not None and is_const_expr(kk) for kk in v.keys))
     if isinstance(k, ast.IfExp) and const_branches(k) and (is_globals or plain_table):
         def push(e):
@@ -2136,15 +2148,19 @@ def scalarise_local_lists(fn: ast.AST) -> int:
     n = 0
     for st in list(own_nodes(fn)):
         t = plain_assign(st)
-        if not t or t in esc or not isinstance(st.value, ast.List) or not st.value.elts or len(st.value.elts) > 8 or any(isinstance(e, ast.Starred) for e in st.value.elts):
+        if not t or t in esc or not isinstance(st.value, (ast.List, ast.Tuple)) or not st.value.elts or len(st.value.elts) > 8 or any(isinstance(e, ast.Starred) for e in st.value.elts):
             continue
         loads, stores = names_in(fn, t)
         if len(stores) != 1:
             continue
         size = len(st.value.elts)
         ok = True
+        starred = []
         for ld in loads:
             p = up.get(id(ld))
+            if isinstance(p, ast.Starred) and isinstance(up.get(id(p)), ast.Call) and p in up[id(p)].args:
+                starred.append((ld, p))     # f(*parts): the slots in order
+                continue
             if not (isinstance(p, ast.Subscript) and p.value is ld and isinstance(p.slice, ast.Constant) and type(p.slice.value) is int and 0 <= p.slice.value < size
                     and isinstance(p.ctx, (ast.Load, ast.Store))):
                 ok = False
@@ -2155,8 +2171,16 @@ def scalarise_local_lists(fn: ast.AST) -> int:
                 break
         if not ok or not loads:
             continue
+        if isinstance(st.value, ast.Tuple) and len(starred) == len(loads) == 1:
+            continue        # a single f(*display): the display is simply written out by another rule
+        for ld, p in starred:
+            call = up[id(p)]
+            k = call.args.index(p)
+            call.args[k:k + 1] = [ast.copy_location(ast.Name(id=f"{t}__{j}", ctx=ast.Load()), p) for j in range(size)]
         for ld in loads:
             p = up.get(id(ld))
+            if isinstance(p, ast.Starred):
+                continue
             replace_child(up.get(id(p)), p, ast.copy_location(ast.Name(id=f"{t}__{p.slice.value}", ctx=type(p.ctx)()), p))
         new = [ast.copy_location(ast.Assign(targets=[ast.Name(id=f"{t}__{k}", ctx=ast.Store())], value=e), st) for k, e in enumerate(st.value.elts)]
         parent = up.get(id(st))
@@ -2171,4 +2195,88 @@ def scalarise_local_lists(fn: ast.AST) -> int:
         up = parents(fn)
     if n:
         ast.fix_missing_locations(fn)
+    return n
+
+
+def comprehension_rules(n: ast.AST) -> Optional[ast.AST]:
+    """F12  (f(x) for x in (g(y) for y in T if c))       ->  (f(g(y)) for y in T if c)        (one generator each; x read once, or g(y) a plain name)
+       F13  [E for x in (A if c else B)]                  ->  [E for x in A] if c else [E for x in B]   (the test is evaluated first either way)"""
+    from .normalize import Subst
+    if not isinstance(n, (ast.GeneratorExp, ast.ListComp, ast.SetComp, ast.DictComp)) or len(n.generators) != 1 or n.generators[0].is_async:
+        return None
+    g = n.generators[0]
+    if isinstance(g.iter, ast.IfExp) and _simple(g.iter.test) or isinstance(g.iter, ast.IfExp) and not any(isinstance(x, (ast.Call, ast.NamedExpr)) for x in ast.walk(g.iter.test)):
+        def variant(it):
+            m = copy.deepcopy(n)
+            m.generators[0].iter = it
+            return m
+        return ast.IfExp(test=g.iter.test, body=variant(g.iter.body), orelse=variant(g.iter.orelse))
+    src = g.iter
+    if isinstance(g.target, ast.Name) and single_gen(src):
+        x = g.target.id
+        inner = src.generators[0]
+        parts = [p_ for p_ in (getattr(n, "elt", None), getattr(n, "key", None), getattr(n, "value", None)) if p_ is not None] + list(g.ifs)
+        cnt = sum(uses_of(p_, x)[0] for p_ in parts)
+        nested = any(uses_of(p_, x)[1] for p_ in parts)
+        inner_names = {t.id for t in ast.walk(inner.target) if isinstance(t, ast.Name)}
+        clash = any(isinstance(y, ast.Name) and y.id in inner_names for p_ in parts for y in ast.walk(p_))
+        if not clash and not nested and (cnt <= 1 or _simple(src.elt)) and not (g.ifs and not _simple(src.elt) and cnt > 1):
+            m = copy.deepcopy(n)
+            sub = Subst({x: src.elt})
+            for fld in ("elt", "key", "value"):
+                if getattr(m, fld, None) is not None:
+                    setattr(m, fld, sub.visit(getattr(m, fld)))
+            new_ifs = [sub.visit(c) for c in m.generators[0].ifs]
+            m.generators = [ast.comprehension(target=inner.target, iter=inner.iter, ifs=list(inner.ifs) + new_ifs, is_async=0)]
+            return m
+    return None
+
+
+def scalarise_records(fn: ast.AST, module_assigns: Dict[str, ast.AST]) -> int:
+    """S16: `p = _Point(a, b)` where `_Point = namedtuple("_Point", ("x", "y"))` is a module-level record type and p is only ever read
+    as `p.x` / `p.y`: one local per field."""
+    if not isinstance(fn, (ast.FunctionDef, ast.AsyncFunctionDef)):
+        return 0
+    esc = escaping_names(fn) | params_of(fn)
+
+    def fields_of(ctor: ast.AST) -> Optional[List[str]]:
+        if not isinstance(ctor, ast.Name) or ctor.id not in module_assigns:
+            return None
+        d = module_assigns[ctor.id]
+        if not (isinstance(d, ast.Call) and (isinstance(d.func, ast.Name) and d.func.id == "namedtuple" or isinstance(d.func, ast.Attribute) and d.func.attr == "namedtuple") and len(d.args) == 2 and not d.keywords):
+            return None
+        spec = d.args[1]
+        if isinstance(spec, ast.Constant) and isinstance(spec.value, str):
+            return spec.value.replace(",", " ").split()
+        if isinstance(spec, (ast.Tuple, ast.List)) and all(isinstance(x, ast.Constant) and isinstance(x.value, str) for x in spec.elts):
+            return [x.value for x in spec.elts]
+        return None
+    n = 0
+    up = parents(fn)
+    for st in list(own_nodes(fn)):
+        t = plain_assign(st)
+        if not t or t in esc or not isinstance(st.value, ast.Call) or st.value.keywords or any(isinstance(a, ast.Starred) for a in st.value.args):
+            continue
+        fields = fields_of(st.value.func)
+        if fields is None or len(fields) != len(st.value.args) or any(isinstance(x, ast.Name) and x.id == st.value.func.id and isinstance(x.ctx, (ast.Store, ast.Del)) for x in ast.walk(fn)):
+            continue
+        loads, stores = names_in(fn, t)
+        if len(stores) != 1 or not loads:
+            continue
+        if not all(isinstance(up.get(id(ld)), ast.Attribute) and up[id(ld)].value is ld and up[id(ld)].attr in fields and isinstance(up[id(ld)].ctx, ast.Load) for ld in loads):
+            continue
+        for ld in loads:
+            p = up[id(ld)]
+            replace_child(up.get(id(p)), p, ast.copy_location(ast.Name(id=f"{t}__{p.attr}", ctx=ast.Load()), p))
+        new = [ast.copy_location(ast.Assign(targets=[ast.Name(id=f"{t}__{f}", ctx=ast.Store())], value=a), st) for f, a in zip(fields, st.value.args)]
+        parent = up.get(id(st))
+        for fld in ("body", "orelse", "finalbody"):
+            lst = getattr(parent, fld, None)
+            if isinstance(lst, list) and st in lst:
+                i = lst.index(st)
+                lst[i:i + 1] = new
+        for x in new:
+            ast.fix_missing_locations(x)
+        n += 1
+        up = parents(fn)
     return n
